@@ -395,7 +395,7 @@ def eval_arity(ctx, args):
     argvals = dict(zip(params, args))
     try:
         r = ev.call_function(fn.node, argvals)
-        if not _has_unknown(r):
+        if not _has_unknown(r) and r[0] != 'either':
             return r
         first = None
     except me.Undecided as e:
